@@ -634,9 +634,33 @@ def k_chain(base, chk, which):
     z = X.Ptr(ex.new_obj(path, ET, init=absmodes.Abs(e)))
     v = X.Ptr(ex.new_obj(path, ET, init=absmodes.Abs(z3.Int("junk"))))
     t0 = time.time()
-    (p,) = ex.call(fname, [v, z], path)
-    if p.outcome[0] != "ret":
-        raise X.ExecError("%s: %s" % (which, p.outcome))
+
+    def chain_battery():
+        from . import native, ref
+        import random
+        rng = random.Random(chk.seed)
+        cands = ref.limb_candidates(rng, 24) + [ref.limbs_of(x) for x in ref.chain_preimages(rng)]
+        ops = [{"op": which, "args": ["v", "z"], "init": {"v": "7,7,7,7,7", "z": ref.fmt_limbs(c)}} for c in cands]
+        resn = native.run_ops("field", ops)
+        for c, rr in zip(cands, resn):
+            if "panic" in rr:
+                return dict(what="%s panics: %s" % (which, rr["panic"]), op=which, inputs=dict(z=c))
+            got = ref.fe_val(ref.parse_limbs(rr["slots"]["v"])) % P
+            want = pow(ref.fe_val(c) % P, target, P)
+            if got != want:
+                return dict(what="%s(z) != z^%d mod p for z = %d (got %d)" % (which, target, ref.fe_val(c) % P, got), op=which, inputs=dict(z=c), got=got, want=want)
+        return None
+    paths = ex.call(fname, [v, z], path)
+    if len(paths) != 1 or paths[0].outcome[0] != "ret":
+        # the chain-mode abstraction cannot follow this body (it does more than multiply and square): undecided, settled by
+        # the native chain battery (structured values and their square roots, so that z and z^2 take limb patterns)
+        ob = chk.add(Ob("%s: the body is an addition chain of Multiply / Square calls (followed in chain mode)" % which, "sat", time.time() - t0, [fname], "chain", detail=str([q.outcome for q in paths][:1])))
+        hit = chain_battery()
+        ob.verdict = "violated" if hit else "sat-unreplayed"
+        if hit:
+            chk.violation(which, hit["what"], hit)
+        return
+    p = paths[0]
     res = ex.load(p, v).v
     s = z3.Solver()
     s.set("timeout", 60000)
